@@ -67,14 +67,17 @@ func FindNestingFunc(obj types.Object) *types.Func {
 		// Iterate over all objects declared in the scope.
 		for _, name := range scope.Names() {
 			d := scope.Lookup(name)
-			if fn, ok := d.(*types.Func); ok && fn.Scope() != nil && fn.Scope().Contains(objPos) {
+			if fn, ok := d.(*types.Func); ok && fn.Pkg() == obj.Pkg() && fn.Scope() != nil && fn.Scope().Contains(objPos) {
 				return fn
 			}
 
 			if named, ok := d.Type().(*types.Named); ok {
-				// Iterate over all methods of an object.
+				// Iterate over all methods of an object. Positions are only
+				// comparable within one package: every package is parsed into
+				// its own token.FileSet, so methods of a type from another
+				// package must not be matched against objPos.
 				for i := 0; i < named.NumMethods(); i++ {
-					if m := named.Method(i); m != nil && m.Scope() != nil && m.Scope().Contains(objPos) {
+					if m := named.Method(i); m != nil && m.Pkg() == obj.Pkg() && m.Scope() != nil && m.Scope().Contains(objPos) {
 						return m
 					}
 				}
